@@ -199,3 +199,50 @@ Theorem C12_cursor_level_evaluate_all : forall D has_ns hc rm rn rr q (wf : m1_s
     evaluate3 D has_ns hc rm rn rr F n q c = val_out V.
 Proof. exact m1_evaluate_refines. Qed.
 Print Assumptions C12_cursor_level_evaluate_all.
+
+(* ... including descendantOverDescendantQuery (Proofs/IterRefine4.v): everything except lastFuncQuery *)
+From XP.Proofs Require Import IterRefine4 IterProtocol3.
+
+Theorem C12_cursor_level_select_all4 : forall D has_ns hc rm rn rr q (wf : m1_supported4 q = true) c l,
+  sel D has_ns hc rm rn rr q c = Val l ->
+  exists F0, forall F n, F0 <= F -> List.length l < n ->
+    drain_items3 D has_ns hc rm rn rr F n (fresh3 q) c = l /\
+    drain3 D has_ns hc rm rn rr F n (fresh3 q) c = nodes_of l /\
+    exists st', run3 D has_ns hc rm rn rr F n (fresh3 q) c = (l, E_nil, st', c).
+Proof. exact m1_refines_m2_all4. Qed.
+Print Assumptions C12_cursor_level_select_all4.
+
+Theorem C12_cursor_level_evaluate_all4 : forall D has_ns hc rm rn rr q (wf : m1_supported4 q = true) c V,
+  eval D has_ns hc rm rn rr q c = Val V ->
+  exists F0, forall F n, F0 <= F -> vlen V < n ->
+    evaluate3 D has_ns hc rm rn rr F n q c = val_out V.
+Proof. exact m1_evaluate_refines4. Qed.
+Print Assumptions C12_cursor_level_evaluate_all4.
+
+(* THE ITERATOR PROTOCOL at cursor level, for every query tree whose node-set spine is well typed
+   (predicates, operands and function arguments unconstrained, lastFuncQuery included) and from ANY
+   well-formed state, half-consumed or not: once Select has returned nil it returns nil for ever
+   (from whatever context node it is called) ... *)
+Theorem C12_cursor_level_nil_is_final : forall D has_ns hc rm rn rr F q (wt : wt3 q = true) s cur st' cur',
+  1 <= F -> Inv3 q s ->
+  select3 D has_ns hc rm rn rr F (existT _ q s) cur = R None st' cur' ->
+  forall k, all_nil D has_ns hc rm rn rr F k st'.
+Proof. exact nil_is_final3. Qed.
+Print Assumptions C12_cursor_level_nil_is_final.
+
+(* ... a Select call keeps the state well formed and, for node-set queries, leaves t.Current() alone *)
+Theorem C12_cursor_level_select_protocol : forall D has_ns hc rm rn rr F q (wt : wt3 q = true) s cur o st' cur',
+  Inv3 q s -> select3 D has_ns hc rm rn rr F (existT _ q s) cur = R o st' cur' ->
+  exists s', st' = existT _ q s' /\ Inv3 q s' /\ (is_ns q = true -> cur' = cur) /\ (o = None -> Dead3 q s').
+Proof. exact select3_protocol. Qed.
+Print Assumptions C12_cursor_level_select_protocol.
+
+(* ... and the NodeIterator driver (MoveNext / Current) reports exactly the list-level items, Current
+   being positioned on the node just reported *)
+Theorem C12_cursor_level_node_iterator : forall D has_ns hc rm rn rr q (wf : m1_supported4 q = true) c l,
+  sel D has_ns hc rm rn rr q c = Val l ->
+  exists F0, forall F n, F0 <= F -> List.length l < n ->
+    exists st', run_iter3 D has_ns hc rm rn rr F n (fresh3 q) c =
+                (map (fun it => (it, it_node it)) l, E_nil, st', last (nodes_of l) c).
+Proof. exact run_iter3_items. Qed.
+Print Assumptions C12_cursor_level_node_iterator.
